@@ -88,6 +88,13 @@ def read_only_ops(proj, rng, n):
         ops.append(("ObtainQuantity(map %s)" % label, lambda db, bad=bad: P.quantity(ObtainQuantity(OrderedDict((c, list(v)) for c, v in bad.items())))))
         ops.append(("Quantity.CreateDerived(map %s)" % label, lambda db, bad=bad: P.quantity(Quantity.CreateDerived(OrderedDict((c, list(v)) for c, v in bad.items())))))
         ops.append(("CheckCategoryUnit(unregistered category) twice", lambda db: [P.outcome(db.CheckCategoryUnit, "verif no such category", "m")[1:], P.outcome(db.CheckCategoryUnit, "verif no such category", "m")[1:]]))
+    # derived quantities that differ only in the caption of an unknown unit: a captioned request before the plain one, and the other way round
+    ops.append(("captioned derived request m/s", lambda db: P.quantity(ObtainQuantity(OrderedDict([("length", ["m", 1]), ("time", ["s", -1])]), None, "log speed"))))
+    ops.append(("then plain: quantity of 10 m / 2 s", lambda db: P.quantity((Scalar(10.0, "m") / Scalar(2.0, "s")).GetQuantity())))
+    ops.append(("then plain: Quantity.CreateDerived(m/s)", lambda db: P.quantity(Quantity.CreateDerived(OrderedDict([("length", ["m", 1]), ("time", ["s", -1])])))))
+    ops.append(("plain derived request kg/m3", lambda db: P.quantity(ObtainQuantity(OrderedDict([("mass", ["kg", 1]), ("length", ["m", -3])])))))
+    ops.append(("then captioned: ObtainQuantity(kg/m3, caption)", lambda db: P.quantity(ObtainQuantity(OrderedDict([("mass", ["kg", 1]), ("length", ["m", -3])]), None, "mud weight"))))
+    ops.append(("then captioned: Quantity.CreateDerived(kg/m3, caption)", lambda db: P.quantity(Quantity.CreateDerived(OrderedDict([("mass", ["kg", 1]), ("length", ["m", -3])]), "mud weight"))))
     # the whole-table queries (no quantity type / category argument), spread through the mix
     whole = [("len(GetUnits())", lambda db: len(db.GetUnits())), ("len(GetInfos())", lambda db: len(db.GetInfos())),
              ("GetUnitNames(first type)", lambda db: list(db.GetUnitNames(list(db.GetQuantityTypes())[0]))), ("GetQuantityTypes()", lambda db: list(db.GetQuantityTypes())),
@@ -120,7 +127,7 @@ def real_db_part(rep, bd, thorough):
     # the same operations, each as the first operation on a fresh database
     step = 1 if thorough else 5
     fresh = None
-    chosen = sorted(set(range(0, len(ops), step)) | {i for i, (name_, _f) in enumerate(ops) if name_.startswith(("Quantity.CreateDerived(map", "CheckCategoryUnit(unregistered", "len(Get", "GetUnits(first"))})
+    chosen = sorted(set(range(0, len(ops), step)) | {i for i, (name_, _f) in enumerate(ops) if name_.startswith(("Quantity.CreateDerived(map", "CheckCategoryUnit(unregistered", "len(Get", "GetUnits(first", "then plain", "then captioned"))})
     for k_, i in enumerate(chosen):
         if fresh is None or k_ % 40 == 0:
             fresh = export.build_db("default")   # rebuilt regularly so that it stays (nearly) cold
